@@ -152,7 +152,7 @@ class StateTriggerDecorator(TriggerDecorator, ExpressionDecorator, AutoKwargsDec
             return "None"
         return f"{(now - dt):g} ago"
 
-    async def _check_new_state(self, trig_ok: bool) -> None:
+    async def _check_new_state(self, trig_ok: bool, startup: bool = False) -> None:
         now = asyncio.get_running_loop().time()
         if _LOGGER.isEnabledFor(logging.DEBUG):
             msg = f"check_new_state: {self}"
@@ -168,7 +168,8 @@ class StateTriggerDecorator(TriggerDecorator, ExpressionDecorator, AutoKwargsDec
         state_hold_false_passed = False
         state_hold_true_passed = False
         if trig_ok:
-            if self.state_hold_false is None or not self.has_expression():
+            if self.state_hold_false is None or not self.has_expression() or startup:
+                # (the check made at start-up for state_check_now does not wait for a False first)
                 state_hold_false_passed = True
             else:
                 if self.false_entered_at:
@@ -245,7 +246,7 @@ class StateTriggerDecorator(TriggerDecorator, ExpressionDecorator, AutoKwargsDec
                 self.state_hold_false = None
 
             if self.state_check_now and self.has_expression():
-                await self._check_new_state(trig_ok)
+                await self._check_new_state(trig_ok, startup=True)
             else:
                 if not trig_ok and self.state_hold_false is not None:
                     self.false_entered_at = loop.time()
